@@ -180,4 +180,80 @@ func genC09Docs(c *Ctx) {
 	}
 }
 
+// genC09DocsToggle: an include line is cut from its parent, the file it named is edited and
+// saved while it is outside the root's tree (the workspace ignores notifications for files it
+// does not hold), and the line is pasted back: the workspace must then show the file as it is
+// NOW, not as it was when it left the tree.  (Added after seed r5-C09, which remembered the
+// syntax tree of files that drop out of the tree and reused it on their return.)
+func genC09DocsToggle(c *Ctx) {
+	r := c.R
+	for i := 0; i < c.N(40, 800); i++ {
+		n := 2 + r.IntN(3)
+		names := append([]string{"main.journal"}, []string{"a.journal", "b.journal", "sub/c.journal"}[:n-1]...)
+		dir := c12FakeDir
+		targets := make([][]string, n)
+		parent := make([]int, n)
+		for j := 1; j < n; j++ {
+			p := r.IntN(j)
+			parent[j] = p
+			targets[p] = append(targets[p], names[j])
+		}
+		var files []c12File
+		for j, nm := range names {
+			files = append(files, c12File{Name: nm, Text: c12Journal(r, dir, nm, targets[j], 1+r.IntN(3))})
+		}
+		x := 1 + r.IntN(n-1) // the file that leaves and returns
+		p := parent[x]
+		without := []string{}
+		for _, t := range targets[p] {
+			if t != names[x] {
+				without = append(without, t)
+			}
+		}
+		var evs []c09DocEv
+		// sometimes the file is known to the server as an open, edited buffer before it leaves
+		if r.IntN(2) == 0 {
+			evs = append(evs, c09DocEv{"open", names[x], c12Journal(r, dir, names[x], targets[x], 1+r.IntN(3))})
+			if r.IntN(2) == 0 {
+				evs = append(evs, c09DocEv{"save", names[x], ""})
+			}
+			if r.IntN(2) == 0 {
+				evs = append(evs, c09DocEv{"close", names[x], ""})
+			}
+		}
+		evs = append(evs, c09DocEv{"open", names[p], files[p].Text})
+		evs = append(evs, c09DocEv{"change", names[p], c12Journal(r, dir, names[p], without, r.IntN(3))})
+		if r.IntN(2) == 0 {
+			evs = append(evs, c09DocEv{"save", names[p], ""})
+		}
+		// outside the tree: edited and saved (open -> change -> save, or re-opened with a new text)
+		opened := false
+		for _, e := range evs {
+			if e.Name == names[x] {
+				opened = e.Kind != "close"
+			}
+		}
+		if !opened {
+			evs = append(evs, c09DocEv{"open", names[x], c12Journal(r, dir, names[x], targets[x], 1+r.IntN(3))})
+		}
+		for k := r.IntN(3); k >= 0; k-- {
+			evs = append(evs, c09DocEv{"change", names[x], c12Journal(r, dir, names[x], targets[x], 1+r.IntN(3))})
+		}
+		evs = append(evs, c09DocEv{"save", names[x], ""})
+		if r.IntN(2) == 0 {
+			evs = append(evs, c09DocEv{"close", names[x], ""})
+		}
+		// the line comes back
+		evs = append(evs, c09DocEv{"change", names[p], c12Journal(r, dir, names[p], targets[p], r.IntN(3))})
+		if r.IntN(2) == 0 {
+			evs = append(evs, c09DocEv{"save", names[p], ""})
+		}
+		if r.IntN(3) == 0 {
+			evs = append(evs, c09DocEv{"change", names[x], c12Journal(r, dir, names[x], targets[x], 1+r.IntN(3))})
+		}
+		c.Count("docs.toggle")
+		c.Emit("c09.docs", c09DocsRun(c, files, evs))
+	}
+}
+
 var _ = rand.New
